@@ -27,6 +27,11 @@ def ws(rng, p=0.4):
     return rng.choice(["", " ", "  ", "\t"]) if rng.random() < p else ""
 
 
+def wsd(rng):
+    """white space inside the parentheses of a declaration: sometimes a line break"""
+    return rng.choice(["\n", "\n  ", " \n\t"]) if rng.random() < 0.04 else ws(rng)
+
+
 def gen_text(rng, big):
     ni = rng.randint(1, 5)
     ng = rng.randint(1, 9 if not big else 16)
@@ -64,9 +69,9 @@ def gen_text(rng, big):
     lower_io = rng.random() < 0.3
     lines = []
     for i in ins:
-        lines.append(("in", f"{'input' if lower_io else 'INPUT'}{ws(rng, 0.2)}({ws(rng)}{i}{ws(rng)})"))
+        lines.append(("in", f"{'input' if lower_io else 'INPUT'}{ws(rng, 0.2)}({wsd(rng)}{i}{wsd(rng)})"))
     for o in dict.fromkeys(outs):
-        lines.append(("out", f"{'output' if lower_io else 'OUTPUT'}{ws(rng, 0.2)}({ws(rng)}{o}{ws(rng)})"))
+        lines.append(("out", f"{'output' if lower_io else 'OUTPUT'}{ws(rng, 0.2)}({wsd(rng)}{o}{wsd(rng)})"))
     for name, kw, ops in gates:
         k = kw.lower() if (lower_kw if rng.random() < 0.8 else not lower_kw) else kw
         if kw.upper() in ("AND", "NAND", "OR", "NOR") and rng.random() < 0.06:
